@@ -106,9 +106,7 @@ def r3_drainer_drains(chk):
                         continue
                     a, _ = body.cond_atom(t["d"])
                     if a[0] == "discr" and "route_message" in a[1] and a[2].startswith("std::result::Result<"):
-                        for v, tb in t["targets"]:
-                            if v == 0:
-                                starts.append(tb)
+                        starts += [tb for tb, lab in body.edges(s) if lab == body.label_for(s, 0)]
                         break
                 if not starts:
                     r.bad(cfg, key, where(body, rc.blk), "no match on the routing result found")
@@ -122,7 +120,7 @@ def r3_drainer_drains(chk):
                         continue
                     a, pol = body.cond_atom(t["d"])
                     if a[0] == "discr" and re.search(r"VecDeque::pop_front\(", a[1]) and a[2].startswith("std::option::Option<"):
-                        avoid_edges.add((s, 0))
+                        avoid_edges.add((s, body.label_for(s, 0)))
                     if a[0] == "call" and a[1].matches(r"VecDeque::is_empty$") and "FrameBatch" in arg_type(a[1]):
                         avoid_edges.add((s, body.bool_edge_label(s, True if pol else False)))
                 reach = body.reachable(starts, avoid_blocks=avoid_blocks, avoid_edges=avoid_edges)
@@ -144,8 +142,8 @@ def r4_ingress_pop_after_completion(chk):
                 if not (c.matches(r"VecDeque::pop_front$") and "FrameBatch" in arg_type(c)):
                     continue
                 gs = body.guards(c.blk)
-                ready = any(g.atom[0] == "discr" and g.atom[2].startswith("std::task::Poll<") and g.label == 0 for g in gs)
-                okk = any(g.atom[0] == "discr" and "@Ready" in g.atom[1] and g.atom[2].startswith("std::result::Result<") and g.label == 0 for g in gs)
+                ready = any(g.atom[0] == "discr" and g.atom[2].startswith("std::task::Poll<") and g.is_value(0) for g in gs)
+                okk = any(g.atom[0] == "discr" and "@Ready" in g.atom[1] and g.atom[2].startswith("std::result::Result<") and g.is_value(0) for g in gs)
                 key = "%s|pop_front#%d" % (short(body.path), [x for x in body.calls if x.name == "pop_front"].index(c))
                 if ready and okk:
                     r.ok(cfg, key, where(body, c.blk), "dominated by Poll::Ready(Ok(..)) of the stored send future")
